@@ -26,6 +26,7 @@ func genGlobals(repo string) (string, error) {
 		}
 		type gv struct{ name, init string }
 		var vars []gv
+		tables := map[string]bool{} // literal tables of plain values (no pointers, slices, maps or functions inside)
 		for _, fn := range p.sortedFiles() {
 			for _, d := range p.files[fn].Decls {
 				gd, ok := d.(*ast.GenDecl)
@@ -50,6 +51,9 @@ func genGlobals(repo string) (string, error) {
 								}
 							case *ast.CompositeLit:
 								init = "literal"
+								if flatTable(p, v) {
+									tables[n.Name] = true
+								}
 							case *ast.UnaryExpr:
 								init = "address"
 							case *ast.BasicLit:
@@ -151,6 +155,17 @@ func genGlobals(repo string) (string, error) {
 				return true
 			})
 		}
+		// a table of plain values that is only ever indexed, ranged over or measured cannot change: no function holds a
+		// reference to it or to anything inside it
+		for name := range tables {
+			if len(writers[name]) == 0 && !escapes(p, name) {
+				for i := range vars {
+					if vars[i].name == name {
+						vars[i].init = "literal:read-only table"
+					}
+				}
+			}
+		}
 		for _, v := range vars {
 			var ws []string
 			for w := range writers[v.name] {
@@ -162,4 +177,144 @@ func genGlobals(repo string) (string, error) {
 	}
 	b.WriteString(strings.Join(rows, ";\n") + "\n].\n")
 	return b.String(), nil
+}
+
+var basicTypeNames = map[string]bool{"string": true, "bool": true, "byte": true, "rune": true, "int": true, "int8": true, "int16": true,
+	"int32": true, "int64": true, "uint": true, "uint8": true, "uint16": true, "uint32": true, "uint64": true, "float32": true, "float64": true}
+
+// flatType: values of the type hold no reference to anything (basic types, structs and fixed arrays of such)
+func flatType(p *pkgSrc, t ast.Expr, depth int) bool {
+	if depth > 6 {
+		return false
+	}
+	switch x := t.(type) {
+	case *ast.Ident:
+		if basicTypeNames[x.Name] {
+			return true
+		}
+		for _, fn := range p.sortedFiles() {
+			for _, d := range p.files[fn].Decls {
+				gd, ok := d.(*ast.GenDecl)
+				if !ok || gd.Tok != token.TYPE {
+					continue
+				}
+				for _, sp := range gd.Specs {
+					ts := sp.(*ast.TypeSpec)
+					if ts.Name.Name == x.Name {
+						return flatType(p, ts.Type, depth+1)
+					}
+				}
+			}
+		}
+		return false
+	case *ast.StructType:
+		for _, f := range x.Fields.List {
+			if !flatType(p, f.Type, depth+1) {
+				return false
+			}
+		}
+		return true
+	case *ast.ArrayType:
+		return x.Len != nil && flatType(p, x.Elt, depth+1)
+	}
+	return false
+}
+
+// flatTable: a map, slice or array literal whose keys and elements are of flat types and whose values are written
+// without calls, function literals or address-of
+func flatTable(p *pkgSrc, cl *ast.CompositeLit) bool {
+	switch t := cl.Type.(type) {
+	case *ast.MapType:
+		if !flatType(p, t.Key, 0) || !flatType(p, t.Value, 0) {
+			return false
+		}
+	case *ast.ArrayType:
+		if !flatType(p, t.Elt, 0) {
+			return false
+		}
+	default:
+		return false
+	}
+	ok := true
+	ast.Inspect(cl, func(n ast.Node) bool {
+		switch x := n.(type) {
+		case *ast.CallExpr, *ast.FuncLit:
+			ok = false
+		case *ast.UnaryExpr:
+			if x.Op == token.AND {
+				ok = false
+			}
+		}
+		return ok
+	})
+	return ok
+}
+
+// escapes: the variable is used somewhere other than as the operand of an index expression, of a range clause or of
+// len/cap (so that a reference to it may be kept or handed on)
+func escapes(p *pkgSrc, name string) bool {
+	esc := false
+	for _, fd := range p.allFuncs() {
+		if fd.Body == nil {
+			continue
+		}
+		var stack []ast.Node
+		ast.Inspect(fd.Body, func(n ast.Node) bool {
+			if n == nil {
+				stack = stack[:len(stack)-1]
+				return true
+			}
+			if id, ok := n.(*ast.Ident); ok && id.Name == name && len(stack) > 0 {
+				switch par := stack[len(stack)-1].(type) {
+				case *ast.IndexExpr:
+					if par.X != ast.Expr(id) {
+						esc = true
+					}
+				case *ast.RangeStmt:
+					if par.X != ast.Expr(id) {
+						esc = true
+					}
+				case *ast.CallExpr:
+					f, isID := par.Fun.(*ast.Ident)
+					if !isID || (f.Name != "len" && f.Name != "cap") || len(par.Args) != 1 {
+						esc = true
+					}
+				case *ast.SelectorExpr:
+					if par.Sel == id {
+						// a field or method that happens to have the same name
+					} else {
+						esc = true
+					}
+				case *ast.KeyValueExpr:
+					if par.Key != ast.Expr(id) {
+						esc = true // as a value; as a key it is the name of a field
+					}
+				default:
+					esc = true
+				}
+			}
+			stack = append(stack, n)
+			return true
+		})
+	}
+	// other package-level initialisers that mention it
+	for _, fn := range p.sortedFiles() {
+		for _, d := range p.files[fn].Decls {
+			gd, ok := d.(*ast.GenDecl)
+			if !ok || gd.Tok != token.VAR {
+				continue
+			}
+			for _, sp := range gd.Specs {
+				for _, v := range sp.(*ast.ValueSpec).Values {
+					ast.Inspect(v, func(n ast.Node) bool {
+						if id, ok := n.(*ast.Ident); ok && id.Name == name {
+							esc = true
+						}
+						return true
+					})
+				}
+			}
+		}
+	}
+	return esc
 }
